@@ -170,8 +170,19 @@ func cliSelect(c *fw.Ctx) {
 			if rr.Intn(3) != 0 {
 				s.key = []string{"gene", "CDS", "misc_feature", "exon"}[rr.Intn(4)]
 			}
+			if s.key != "" && rr.Intn(8) == 0 {
+				// a blank is a character like any other: no feature has this key.
+				s.key = " " + s.key
+				c.Bucket("cli:select selector with outer blank")
+			}
 			s.str = s.key
-			switch rr.Intn(3) {
+			switch rr.Intn(4) {
+			case 3:
+				// a regexp that ends in a blank: "alpha beta" has it, "alpha" has not.
+				pat := "alpha "
+				s.re = regexp.MustCompile(pat)
+				s.str += "/note=" + pat
+				c.Bucket("cli:select selector with outer blank")
 			case 0:
 				pat := fmt.Sprintf("^h[%d-%d]$", rr.Intn(3), 3+rr.Intn(4))
 				s.re = regexp.MustCompile(pat)
@@ -345,6 +356,13 @@ func cliSearch(c *fw.Ctx) {
 				// take the query from a record so there is at least one hit.
 				a := rr.Intn(len(src) - len(q))
 				copy(q, src[a:a+len(q)])
+			}
+			if nq == 1 && rr.Intn(6) == 0 {
+				// a query that itself starts with the byte that marks a literal
+				// on the command line (outside the alphabet: it matches only
+				// itself, so nothing in these records).
+				q = append([]byte("@"), q...)
+				c.Bucket("cli:search query starting with @")
 			}
 			if nq > 1 && i < nq-1 && rr.Intn(4) == 0 {
 				// longer than the shortest record: no hit there, the later
@@ -525,6 +543,15 @@ func cliReverseComplement(c *fw.Ctx) {
 		var text []byte
 		for k := 0; k < nrec; k++ {
 			gb, b := cliRecord(rr, 20+rr.Intn(40), true)
+			if it%2 == 1 && rr.Intn(4) == 0 {
+				// an annotated record without residues (CONTIG only), as the
+				// databases ship large genomes: complementing it still puts
+				// every feature on the other strand.
+				gb.Origin = seqio.NewOrigin(nil)
+				gb.Fields.Contig = seqio.Contig{Accession: "U00096.3", Region: gts.Segment{0, len(b)}}
+				b = []byte{}
+				c.Bucket("cli:complement CONTIG-only record")
+			}
 			recs = append(recs, gb)
 			seqs = append(seqs, b)
 			text = append(text, gb.String()...)
@@ -878,7 +905,8 @@ func cliFasta(c *fw.Ctx) {
 		ext := []string{".gb", ".genbank", ".fasta", ".txt", ""}[rr.Intn(5)]
 		outp := env.File("c17out" + ext)
 		os.MkdirAll(filepath.Dir(outp), 0755)
-		os.Remove(outp)
+		// the file exists already and holds more than this run will write.
+		os.WriteFile(outp, bytes.Repeat([]byte(">left over from an earlier run\nnnnnnnnnnn\n"), 40+len(res.Stdout)/30), 0644)
 		ro := env.Run(append(append([]string{}, args...), "--no-cache", "-o", outp), stdin.Bytes(), nil, 60*time.Second)
 		ob, rerr := os.ReadFile(outp)
 		os.Remove(outp)
@@ -933,6 +961,11 @@ func cliFormatPlumbing(c *fw.Ctx, env *cli.Env) {
 			if i > 0 && rr.Intn(2) == 0 {
 				// a later record in which the usual selectors find nothing.
 				gb.Table = nil
+				if rr.Intn(2) == 0 {
+					// and without residues: a CONTIG-only record.
+					gb.Origin = seqio.NewOrigin(nil)
+					gb.Fields.Contig = seqio.Contig{Accession: "U00096.3", Region: gts.Segment{0, 100}}
+				}
 			}
 			stdin.WriteString(gb.String())
 			single = append(single, []byte(gb.String()))
@@ -972,6 +1005,14 @@ func cliFormatPlumbing(c *fw.Ctx, env *cli.Env) {
 			}
 		}
 		text := string(fa.Stdout)
+		if oneToOne := map[string]bool{"delete": true, "rotate": true, "insert": true, "define": true, "search": true, "select": true, "sort": true}[cmd[0]]; oneToOne {
+			// one output record per input record, whatever it holds.
+			got, err, bad := c17read(text, 64)
+			if err != nil || bad != "" || len(got) != len(single) {
+				c.Violate("cli:plumbing:record-count:"+cmd[0], enc, fmt.Sprintf("%d records", len(single)), fmt.Sprintf("%d records err=%v %s", len(got), err, bad))
+				continue
+			}
+		}
 		if len(text) > 0 {
 			got, err, bad := c17read(text, 64)
 			ok := err == nil && bad == "" && text[0] == '>'
@@ -1007,7 +1048,7 @@ func cliFormatPlumbing(c *fw.Ctx, env *cli.Env) {
 					break
 				}
 			}
-			os.Remove(outp)
+			os.WriteFile(outp, bytes.Repeat([]byte(">left over from an earlier run\nnnnnnnnnnn\n"), 40+len(ref.Stdout)/30), 0644)
 			ro := run(append(append([]string{}, f...), "-o", outp)...)
 			ob, rerr := os.ReadFile(outp)
 			os.Remove(outp)
